@@ -128,6 +128,16 @@ def run(ctx):
     ok = len(lp) == 1 and [norm(b) for b in lp[0].body] == ["if self.regexp_species.search(field):\n    Y_species.append(field)"]
     ctx.check(ok, f"{P}.EVERY-FIELD", sf.site, "every Y(...) field of the header is listed once as a species",
               "species listing changed", key="species")
+    # the species name is the field name without `Y(` and its *one* closing parenthesis (species such as CH2(S) end
+    # in a parenthesis of their own): character-set stripping removes every trailing `)`
+    strips = [c for c in walk_no_nested(sf.node) if isinstance(c, ast.Call) and isinstance(c.func, ast.Attribute)
+              and c.func.attr in ("strip", "rstrip", "lstrip") and c.args and isinstance(c.args[0], ast.Constant)
+              and isinstance(c.args[0].value, str) and set(c.args[0].value) & set("()Y")]
+    ctx.check(not strips, f"{P}.EVERY-FIELD", sf.site,
+              "the `Y(` prefix and the closing parenthesis are removed as anchored patterns (exactly one of each)",
+              f"`{norm(strips[0]) if strips else ''}` strips a *set of characters*, i.e. every trailing/leading `(`/`)`: "
+              f"`Y(CH2(S))` is listed as `CH2(S`, a name the header does not have", key="species-name",
+              where=loc(sf, strips[0]) if strips else None, semantic=True)
     # marinate: picklability of the reader + arguments
     ma = prog.func("amr_kitchen/marinate.py", "main", P)
     call, b = wiring.call_bindings(prog, ma, lambda t: t == "PlotfileCooker")
